@@ -4,7 +4,7 @@
 N="$1"; ID="$2"; TIER="${3:-quick}"
 cd /verif || exit 3
 git -C /repo diff --quiet || { echo "/repo is dirty"; exit 3; }
-git -C /repo apply "seeded/$N/patch.diff" || { echo "patch does not apply"; exit 3; }
+git -C /repo apply "/verif/seeded/$N/patch.diff" || { echo "patch does not apply"; exit 3; }
 out=$(VERIF_BUDGET_S=${VERIF_BUDGET_S:-300} bin/vcheck "$ID" "$TIER" 2>&1); rc=$?
 git -C /repo checkout -- . ; git -C /repo status --short | grep -v '^??' 
 cp "evidence/$ID.json" "/tmp/evidence-$N-$ID.json" 2>/dev/null; git checkout -- "evidence/$ID.json" 2>/dev/null
